@@ -23,6 +23,8 @@ func init() {
 		Run: runC19,
 	})
 	addMutants("C19",
+		mutant{"WriteNext drops the unsent rest after a failed write", "codec.go",
+			"\t\tnn, err = c.dst.WriteTo(c.stream)\n\t\tn = int(nn)\n", "\t\tnn, err = c.dst.WriteTo(c.stream)\n\t\tn = int(nn)\n\t\tif err != nil {\n\t\t\tc.dst.Consume(c.dst.ReadLen())\n\t\t}\n", "C19-R4"},
 		mutant{"prefix consumed before the payload is complete", "codec/frame/frame.go",
 			"\tpayloadLen := binary.BigEndian.Uint32(src.Data()[:HeaderLen])\n", "\tpayloadLen := binary.BigEndian.Uint32(src.Data()[:HeaderLen])\n\tsrc.Consume(HeaderLen)\n", "C19-R2"},
 		mutant{"prefix written little endian", "codec/frame/frame.go",
@@ -537,6 +539,19 @@ func runC19(c *Ctx) {
 				}
 			}
 		})
+		// whatever was encoded leaves the write buffer through WriteTo/AsyncWriteTo only: the connection never drops buffered
+		// bytes itself (after a partial transport write the rest of the item is still owed to the peer)
+		drops := false
+		var dpos token.Pos = fn.Pos()
+		for _, f := range withClosures(fn) {
+			eachInstr(f, func(in ssa.Instruction) {
+				if isCallToFn(in, bb("Consume"), bb("Reset"), bb("Discard"), bb("DiscardAll"), bb("ShrinkBy"), bb("ShrinkTo")) {
+					drops = true
+					dpos = in.Pos()
+				}
+			})
+		}
+		c.check(!drops, fn, "keeps unsent bytes", dpos, "the connection does not discard buffered bytes", fn.Name()+" discards bytes from the codec buffers itself: after a transport write that went through only partly (would-block in the middle of an item) the unsent rest is thrown away, the peer receives a truncated item and swallows the next one as its payload")
 		c.check(guarded && n > 0, fn, "encode error", fn.Pos(), "the transport write happens only when Encode succeeded", fn.Name()+" writes to the transport although Encode may have failed (its error is not tested): a refused item is reported as written, or a half-encoded one reaches the peer")
 	}
 
